@@ -25,7 +25,7 @@ E *BV_INSERT_RR(BVIMPL_T *self, E *position, E *v) {
   int64_t val = RK(v); RK(v) = C_MOVED;
   bv_need(b, (uint64_t)b->_size + 1);
   for (uint64_t i = b->_size; i > idx; i--) b->_storage[i].r = b->_storage[i - 1].r;
-  b->_storage[idx].r = val; b->_size++;
+  b->_storage[idx].r = val; b->_size++; g_nctor++;
   return b->_storage + idx;
 }
 #endif
@@ -35,7 +35,7 @@ void BV_PUSH_BACK_RR(BVIMPL_T *self, E *v) {
   __CPROVER_assert(c_alive(v), "C02 C10: appended value is alive and not moved-from");
   int64_t val = RK(v); RK(v) = C_MOVED;
   bv_need(b, (uint64_t)b->_size + 1);
-  b->_storage[b->_size].r = val; b->_size++;
+  b->_storage[b->_size].r = val; b->_size++; g_nctor++;
 }
 #endif
 #ifdef BV_ERASE
@@ -44,7 +44,7 @@ E *BV_ERASE(BVIMPL_T *self, E *position) {
   __CPROVER_assert(idx < b->_size, "C01 C03: erase(position) is given a dereferenceable iterator");
   __CPROVER_assert(b->_storage[idx].r != C_RAW, "C02: destroyed exactly once (object is alive)");
   for (uint64_t i = idx; i + 1 < b->_size; i++) b->_storage[i].r = b->_storage[i + 1].r;
-  b->_storage[b->_size - 1].r = C_RAW; b->_size--;
+  b->_storage[b->_size - 1].r = C_RAW; b->_size--; g_ndtor++;
   return b->_storage + idx;
 }
 #endif
@@ -55,7 +55,7 @@ E *BV_ERASE_RANGE(BVIMPL_T *self, E *first, E *last) {
   uint64_t k = i1 - i0, n = b->_size;
   for (uint64_t i = i0; i + k < n; i++) b->_storage[i].r = b->_storage[i + k].r;
   for (uint64_t i = n - k; i < n; i++) b->_storage[i].r = C_RAW;
-  b->_size = (__typeof__(b->_size))(n - k);
+  b->_size = (__typeof__(b->_size))(n - k); g_ndtor += k;
   return L0_PADD(b->_storage, +, i0);
 }
 #endif
@@ -66,7 +66,7 @@ E *BV_INSERT_MOVE_RANGE(BVIMPL_T *self, E *position, struct move_iterator_pE fir
   if (k == 0) return position;
   bv_need(b, (uint64_t)b->_size + k);
   for (uint64_t i = b->_size; i > idx; i--) b->_storage[i - 1 + k].r = b->_storage[i - 1].r;
-  for (uint64_t j = 0; j < k; j++) { __CPROVER_assert(c_alive(first.current + j), "C02 C10: every inserted element is alive"); b->_storage[idx + j].r = first.current[j].r; first.current[j].r = C_MOVED; }
+  for (uint64_t j = 0; j < k; j++) { __CPROVER_assert(c_alive(first.current + j), "C02 C10: every inserted element is alive"); b->_storage[idx + j].r = first.current[j].r; first.current[j].r = C_MOVED; g_nctor++; }
   b->_size = (__typeof__(b->_size))(b->_size + k);
   return b->_storage + idx;
 }
